@@ -3,7 +3,9 @@ structural invariants, record layout, expected rows per request) -> bytes on dis
 comparison of complete results; every binary read of the real loader is logged and checked for alignment
 with the record grammar."""
 import contextlib
+import inspect
 import io
+import re
 import json
 import multiprocessing as mp
 import os
@@ -40,23 +42,39 @@ def tlc_layouts(rep, cfgs, label):
 class ReadLog:
     def __init__(self):
         self.events = []
+        self.broken = False
+        self.orig = None
 
     def __enter__(self):
         from osyris.io import utils
         self.utils = utils
-        self.orig = utils.read_binary_data
+        self.orig = getattr(utils, "read_binary_data", None)
+        if self.orig is None:
+            self.broken = True
+            return self
         size = {"b": 1, "h": 2, "i": 4, "q": 8, "f": 4, "d": 8, "e": 8, "n": 8, "l": 8, "s": 1}
 
-        def wrapped(content=None, fmt=None, offsets=None, skip_head=True, increment=True):
-            off = sum(offsets[k] * size[k] for k in offsets) + (4 if skip_head else 0)
-            mult = 1 if len(fmt) == 1 else int(fmt[:-1])
-            self.events.append((content, fmt[-1], mult, off, skip_head))
-            return self.orig(content=content, fmt=fmt, offsets=offsets, skip_head=skip_head, increment=increment)
+        def wrapped(*args, **kwargs):
+            # the log must never disturb the load: if the reader's interface is not the one this wrapper knows
+            # (a refactoring), logging stops and the log is marked unusable
+            if not self.broken:
+                try:
+                    b = inspect.signature(self.orig).bind(*args, **kwargs)
+                    b.apply_defaults()
+                    a = b.arguments
+                    content, fmt, offsets, skip_head = a["content"], a["fmt"], a["offsets"], a["skip_head"]
+                    off = sum(offsets[k] * size[k] for k in offsets) + (4 if skip_head else 0)
+                    mult = 1 if len(fmt) == 1 else int(fmt[:-1])
+                    self.events.append((content, fmt[-1], mult, off, skip_head))
+                except Exception:
+                    self.broken = True
+            return self.orig(*args, **kwargs)
         utils.read_binary_data = wrapped
         return self
 
     def __exit__(self, *a):
-        self.utils.read_binary_data = self.orig
+        if self.orig is not None:
+            self.utils.read_binary_data = self.orig
 
 
 def check_alignment(events, filemap):
@@ -238,8 +256,8 @@ def files_read_for_particles(cfg, ds):
             arr = g[n]
         else:
             for k in g.keys():
-                if hasattr(g[k], "_xyz") and n[:-2] == k and n[-1] in g[k]._xyz:
-                    arr = g[k]._xyz[n[-1]]
+                if common.is_vector(g[k]) and n[:-2] == k and n[-1] in common.comps_of(g[k]):
+                    arr = common.comps_of(g[k])[n[-1]]
         if arr is None:
             continue
         toks = np.rint(np.atleast_1d(arr.values) / fac).astype(np.int64)
@@ -317,7 +335,7 @@ def run_config(args):
             S = lay["S"]
             buf = io.StringIO()
             status, detail, nread = "match", None, 0
-            compact = None
+            compact = note = None
             try:
                 with contextlib.redirect_stdout(buf):
                     ds = osyris.RamsesDataset(nout, path=d)
@@ -328,7 +346,7 @@ def run_config(args):
                     else:
                         ds.load(**kw)
                 detail = compare_dataset(cfg, lay, call, ds)
-                if with_log and (idx + ci) % 7 == 0:
+                if with_log and not log.broken and (idx + ci) % 7 == 0:
                     compact = [{"k": filemap[c0][0], "f": int(filemap[c0][1]), "t": t0, "n": int(m0), "off": int(o0), "head": bool(h0)} for c0, t0, m0, o0, h0 in log.events if c0 in filemap]
                 if detail and cfg.get("hilbert3") and "position" in call["kind"]:
                     # the as-found pre-selection (Hilbert!CpuListOf) misses the owner of a qualifying leaf that is coarser than
@@ -342,23 +360,29 @@ def run_config(args):
                                                             part=[r for r in e["part"] if r["cpu"] in e["codecpus"]])
                         if compare_dataset(cfg, lay2, call, ds) is None:
                             detail = "D17: " + detail
-                if detail is None and with_log:
-                    detail, nread = check_alignment(log.events, filemap)
-                    if detail:
-                        detail = "read log: " + detail
+                if with_log and not log.broken and log.events:
+                    # C -> S binding of the parser to the record grammar.  A divergence is a diagnosis attached to a wrong
+                    # result; with a right result it is recorded (evidence: read_log_divergences) but is no violation -
+                    # the properties speak about what load() returns, not about how the bytes are fetched
+                    adetail, nread = check_alignment(log.events, filemap)
+                    if adetail and detail:
+                        detail += "; read log: " + adetail
+                    elif adetail:
+                        note = "read log: " + adetail
                 # number of files opened (C04: pre-selection must keep every needed file)
                 if detail is None:
                     needed = sorted({r["c"] for r in lay["exp"][call["req"] - 1]["rows"]})
                     for line in buf.getvalue().splitlines():
-                        if line.startswith("Processing "):
-                            nfiles = int(line.split()[1])
+                        m = re.match(r"Processing (\d+) files", line)
+                        if m:
+                            nfiles = int(m.group(1))
                             if "mesh" in [g for g in ds.keys()] and nfiles < len(needed):
                                 detail = f"only {nfiles} files processed but cells of {len(needed)} cpus qualify"
             except Exception as e:      # the loader raised on a well-formed output
                 detail = f"load raised {type(e).__name__}: {e}"
             if detail:
                 status = "mismatch"
-            out.append((idx, ci, call, status, detail, nread, compact))
+            out.append((idx, ci, call, status, detail, nread, compact, note))
     finally:
         shutil.rmtree(d, ignore_errors=True)
     return out
@@ -384,11 +408,13 @@ def run_batch(rep, cfgs, lays, kinds, label, with_log=False):
     import osyris  # noqa: F401  (before fork)
     jobs = [(i + 1, c, l, kinds, with_log) for i, (c, l) in enumerate(zip(cfgs, lays))]
     n = nm = nreads = 0
-    traces = []
+    traces, notes = [], []
     max_traces = 60 if rep.tier == "quick" else 600
     with mp.get_context("fork").Pool(min(16, os.cpu_count() or 1)) as pool:
         for res in pool.imap_unordered(run_config, jobs, chunksize=2):
-            for idx, ci, call, status, detail, nread, compact in res:
+            for idx, ci, call, status, detail, nread, compact, note in res:
+                if note:
+                    notes.append(note)
                 cfg = cfgs[idx - 1]
                 if compact and len(traces) < max_traces:
                     traces.append({"cfg": idx, "events": compact, "call": call["kind"]})
@@ -403,8 +429,11 @@ def run_batch(rep, cfgs, lays, kinds, label, with_log=False):
                     rep.mismatch(sig_of(cfg, call, detail, rep.pid),
                                  f"configuration {cfg_summary(cfg)} call {call}: {detail}",
                                  case={"cfg": cfg, "call_index": ci}, module="loader")
-    rep.part(label, configurations=len(cfgs), calls=n, mismatches=nm, reads_checked_for_alignment=nreads)
-    if with_log and traces:
+    rep.part(label, configurations=len(cfgs), calls=n, mismatches=nm, reads_checked_for_alignment=nreads,
+             **({"read_log_divergences": len(notes), "first_divergence": notes[0]} if notes else {}))
+    if notes:
+        print(f"NOTE {label}: {len(notes)} load(s) returned the specified result while their read log diverges from the record grammar, e.g. {notes[0]}")
+    if with_log and traces and not notes:
         validate_read_traces(rep, cfgs, traces, label)
     return n
 
@@ -455,7 +484,7 @@ def replay(rep, rec):
     c2 = dict(cfg, calls=[cfg["calls"][ci]])
     import osyris  # noqa
     res = run_config((2, c2, lays[0], None, True))
-    for idx, _, call, status, detail, nread, _c in res:
+    for idx, _, call, status, detail, nread, _c, _n in res:
         print("replay verdict:", status, detail or "")
         if status == "mismatch":
             rep.mismatch(rec["sig"], detail, case=rec["case"], module="loader")
@@ -693,15 +722,15 @@ def check_sink(cfg, sc, ds):
                 return f"{name} row {r}: expected {w * fac!r} got {v!r}"
         return None
     for name in e["scalars"]:
-        if hasattr(g[name], "_xyz"):
+        if common.is_vector(g[name]):
             return f"{name}: expected a scalar got a vector"
         d = check_col(name, g[name])
         if d:
             return d
     for name, comps in vec.items():
-        if not hasattr(g[name], "_xyz") or len(g[name]._xyz) != len(comps):
+        if not common.is_vector(g[name]) or len(common.comps_of(g[name])) != len(comps):
             return f"{name}: expected a vector of {len(comps)} components"
-        for cn, arr in zip(comps, g[name]._xyz.values()):
+        for cn, arr in zip(comps, common.comps_of(g[name]).values()):
             d = check_col(cn, arr)
             if d:
                 return d
